@@ -898,6 +898,93 @@ def ensure_tables(ctx, driver, module):
     raise common.Infra("generated constants table keeps changing under this run (concurrent checks on another tree?)")
 
 
+def sha(b):
+    import hashlib
+    return hashlib.sha1(b).hexdigest()[:16]
+
+
+UNSUPPORTED_DTYPES = ["float32", "int32", "bool", "uint8", "float16", "int16", "uint64", "complex128", "<M8[D]"]
+
+
+def refusal_stream(ctx, drv, scratch, n, versions=True):
+    """what the format cannot hold / does not accept:
+    (a) an array whose dtype is neither int64 nor float64 (binary_output.py:226-231). The Cell constructor only
+        PROBES `astype(float64)` and stores the array as given, so such a cell exists and the writer is the one that
+        refuses: to_binary must raise ValueError, with and without compression, wherever the array sits (the model's
+        `Val` has the two dtypes of the format only, so this refusal is compared with an explicit expectation, not
+        with the model); a following write of the valid triangle in the same process must still give the model's
+        bytes (nothing of the failed write is remembered).
+    (b) a file whose version byte is not the supported one (binary_input.py:148-151): from_binary raises ValueError
+        and Model.decode refuses, too."""
+    rng = ctx.rng
+    reqs, infos = [], []
+    for tri, desc in make_triangles(ctx, n, small=True):
+        if not tri.cells:
+            continue
+        cells = list(tri.cells)
+        valid_wire = raw_cells(cells, strict=False)
+        # (a)
+        dt = rng.choice(UNSUPPORTED_DTYPES)
+        i = rng.randrange(len(cells))
+        shape = rng.choice([(3,), (1,), (2, 2), (0,)])
+        arr = np.zeros(shape, dtype=np.int64).astype(dt) if "M8" in dt else (
+            np.arange(int(np.prod(shape)), dtype=np.int64).reshape(shape) % 2).astype(dt)
+        field = rng.choice(list(cells[i].values) + ["zz_extra"])
+        st, bad_cell = xcall(lambda: cells[i].replace(values={**cells[i].values, field: arr}))
+        ctx.count(f"refuse/dtype={dt}")
+        ctx.case(digest=f"refuse-dtype/{dt}/{i}/{field}/{shape}/" + sha(json.dumps(valid_wire, sort_keys=True).encode()),
+                 nontrivial=True, sample={"op": "to_binary refusal", "dtype": dt} if not infos else None)
+        case = {"cells": valid_wire, "cell": i, "field": field, "dtype": dt, "shape": list(shape)}
+        if st != "ok":
+            if "M8" not in dt:      # datetime64 does not cast to float64: the constructor itself refuses it
+                ctx.fail(f"Cell refuses a numeric array of dtype {dt} (it only probes the float64 cast)", case, {"error": bad_cell})
+            elif bad_cell != "ValueError":
+                ctx.fail("Cell: an array that is not coercible to float64 must be refused with ValueError", case, {"error": bad_cell})
+        else:
+            if bad_cell.values[field].dtype != arr.dtype:
+                ctx.disagree("Cell keeps an array value as given (no dtype coercion)", case, str(arr.dtype),
+                             str(bad_cell.values[field].dtype))
+            st, t_bad = xcall(Triangle, cells[:i] + [bad_cell] + cells[i + 1:])
+            if st == "ok":
+                for kw, ext in (({}, ".trib"), ({"compress": True}, ".tribc"), ({"compress": False}, ".trib")):
+                    st2, B = xcall(write_file, t_bad, scratch.path(ext), **kw)
+                    if st2 == "ok" or B != "ValueError":
+                        ctx.fail(f"to_binary({kw}) must refuse an array of dtype {dt} with ValueError (the format has "
+                                 "int64 and float64 arrays only)", case,
+                                 {"impl": "wrote a file" if st2 == "ok" else B, "bytes": B.hex() if st2 == "ok" else None})
+        # the valid triangle afterwards
+        st3, B = xcall(write_file, tri, scratch.path(".trib"))
+        if st3 != "ok":
+            ctx.fail("to_binary raised on a valid triangle after a refused write", case, {"error": B})
+            continue
+        reqs.append({"op": "case", "cells": valid_wire, "file": B.hex(), "impl": None})
+        infos.append(("after-refusal", case, B))
+        # (b)
+        if versions:
+            for v in (0, 2, 255, rng.randrange(3, 255)):
+                b = bytearray(B)
+                b[4] = v
+                data = bytes(b)
+                d = read_dump(scratch.put(data, ".trib"))
+                dz = read_dump(scratch.put(gzip.compress(data, compresslevel=5), ".tribc"))
+                ctx.count("refuse/version")
+                ctx.case(digest="refuse-version" + sha(data), nontrivial=True, sample=None)
+                vcase = {"what": f"version byte {v}", "file": data.hex(), "cells": valid_wire}
+                for name, dd in (("from_binary(.trib)", d), ("from_binary(.tribc)", dz)):
+                    if dd[0] != "err" or dd[1] != "ValueError":
+                        ctx.fail(f"{name}: a file with another version byte must be refused with ValueError", vcase,
+                                 {"impl": dd[1] if dd[0] == "err" else "read a triangle"})
+                reqs.append({"op": "decode", "hex": data.hex()})
+                infos.append(("version", vcase, None))
+    for (kind, case, B), out in zip(infos, drv.run(reqs)):
+        if kind == "version":
+            if "err" not in out["model"]:
+                ctx.disagree("Model.decode refuses another version byte", case, model=out["model"], impl="raised")
+        elif out.get("wf") and out.get("coherent", True) and bytes.fromhex(out["bytes"]) != B:
+            ctx.disagree("to_binary bytes = Model.encode bytes (valid triangle written after a refused write)", case,
+                         model=out["bytes"], impl=B.hex())
+
+
 def correspondence(ctx):
     if import_failed(ctx):
         return
@@ -910,6 +997,7 @@ def correspondence(ctx):
         roundtrip_batch(ctx, drv, tris, scratch, tag="rt")
         repr_stream(ctx, drv, scratch, 300 if ctx.thorough else 40)
         family_stream(ctx, drv, scratch, 60 if ctx.thorough else 8)
+        refusal_stream(ctx, drv, scratch, 120 if ctx.thorough else 25)
         for k, n_ in sorted(LAYOUT_SEEN.items()):
             ctx.count(f"array-layout/{k}", n_)
         infer_table(ctx, drv, make_triangles(ctx, 6 if ctx.thorough else 2, small=True), scratch)
@@ -919,7 +1007,9 @@ RULE = ("random triangles over the full CellValue x MetadataValue lattice: int (
         "bit patterns incl. NaN/inf/-0.0), bool, None, np.int64/np.float64 scalars, int64/float64 arrays of 0-3 dims "
         "incl. empty ones in C order, Fortran order, transposed / strided / reversed / offset / broadcast views; details of str/int/float/bool/date/None; None/''/non-ASCII strings; limits None/float; "
         "0-4 slices; three cell classes; 0-400 distinct keys dense at 120-140 and 380-400 (+ fixed 0,136,137,138,392,"
-        "393,400); families of related triangles (select / derive_fields / ==-equal metadata copies) written in sequence in one process, with repeats; the empty triangle; .trib and .tribc, explicit and inferred compression; extension x flag table. "
+        "393,400); families of related triangles (select / derive_fields / ==-equal metadata copies) written in sequence in one process, with repeats; the empty triangle; .trib and .tribc, explicit and inferred compression; extension x flag table; refusals: arrays of "
+        "dtype float32/int32/bool/uint8/float16/int16/uint64/complex128/datetime64 (to_binary: ValueError, then the valid triangle "
+        "again), files with another version byte (from_binary: ValueError, Model.decode refuses). "
         "distinct = distinct raw dump; non-trivial = at least one cell")
 ASSUMPTIONS = [
     "WF (checked by the driver on every generated triangle): strings < 32768 UTF-8 bytes, padded pool < 32768, ints in "
